@@ -19,7 +19,7 @@ def oracle_many(cases, timeout=600):
 
 
 KNOWN_CLASSES = {"c01": ["kfa", "kfb", "kfc", "kfd", "kfe", "kff", "kfg", "kfi", "f4n", "kfj"], "c04": ["kfa", "kfg", "kfe", "kfj"],
-                 "c06": ["kfa", "kfg", "kfc"], "c07": [],
+                 "c06": ["kfa", "kfg", "kfc", "kfi"], "c07": [],
                  "c08": ["kfa", "kfb", "kfc", "kfd", "kfe", "kff", "kfg", "kfi", "kfk"],
                  "c09": ["kfa", "kfg"], "c10w": ["kfa", "kfg", "f4n"], "c10": ["f4", "kfa", "kfg"], "c11": [], "c19": [], "c05": []}
 
